@@ -324,7 +324,7 @@ def _field_ctor(prog, f):
 
 
 def gen_source(prog):
-    L = ["import enum", "import vsc", "", "class UserFault(Exception):", "    pass", "", "EVENTS = []", ""]
+    L = ["import enum", "import vsc", "", "class UserFault(Exception):", "    pass", "", "EVENTS = []", "_now = lambda: 0", ""]
     for en, members in prog.get("enums", {}).items():
         L.append("class %s(enum.IntEnum):" % en)
         for m, v in members:
@@ -370,12 +370,14 @@ def gen_source(prog):
         for hook in ("pre_randomize", "post_randomize"):
             if c.get(hook) is not None:
                 L.append("    def %s(self):" % hook)
-                L.append("        EVENTS.append((%r, id(self), self._snapshot()))" % hook)
+                L.append("        EVENTS.append((%r, id(self), self._snapshot(), _now()))" % hook)
                 for act in c[hook]:
                     if act[0] == "set":
                         L.append("        %s = %d" % (_py_path("self", act[1], None), act[2]))
                     elif act[0] == "raise":
                         L.append("        raise UserFault(%r)" % hook)
+                    elif act[0] == "raise_if":
+                        L.append("        if int(%s) == %d: raise UserFault(%r)" % (_py_path("self", act[1], None), act[2], hook))
                 L.append("    def _snapshot(self):")
                 snap = []
                 for f in all_fields(prog, c["name"]):
